@@ -4521,10 +4521,13 @@ gj0BCallOpMod(Foam foam)
 	assert(listLength(JavaCode)(args) == 3);
 
 	extraArg = listElt(JavaCode)(args, 2);
-	args = listList(JavaCode)(2, car(args), car(cdr(args)));
+	/* the sum / product of two residues needs more than the 32 bits of an int */
+	args = listList(JavaCode)(2, jcCast(jcId(strCopy("long")), car(args)),
+				  car(cdr(args)));
 	r = jcOp(inf->gjTag, args);
 
-	return jcBinOp(JCO_OP_Modulo, r, extraArg);
+	return jcCast(jcId(strCopy("int")),
+		      jcParens(jcBinOp(JCO_OP_Modulo, r, extraArg)));
 }
 
 local JavaCode
